@@ -19,36 +19,43 @@ open Rustemo
 /-- **Any non-panicking lexer.**  With a "next token" function that does not panic itself and hands
     the parser state back, the parser loop never reaches a panic site, whatever tokens it delivers
     (kinds the state has no action for surface as `err noAction`). -/
-theorem C15_lr_no_panic_any_lexer (env : Env) (nt : Ctx → Ctx × Outcome Tok) (sym : Nat)
-    (hs : Cert.structural env.g env.t 0 0 sym = true) (ht : Cert.total env.g env.t 0 = true)
+theorem C15_lr_no_panic_any_lexer (env : Env) (nt : Ctx → Ctx × Outcome Tok)
+    (hs : Cert.structural env.g env.t (autosOf env.g env.t) = true)
+    (ht : Cert.total env.g env.t 0 = true)
     (hnt : NtGood env.t nt) (ctx0 : Ctx) (h0 : ctx0.state < env.t.states.size) (fuel : Nat) :
     ∀ site, (parseWith env nt 0 ctx0 fuel).2 ≠ .panic site := by
   intro site h
-  have := parseWith_no_panic env nt 0 0 sym (Cert.structural_sound _ _ _ _ _ hs)
+  have := parseWith_no_panic env nt (autosOf env.g env.t) ⟨0, 0, env.g.startIdx⟩
+    (by unfold autosOf; exact List.mem_cons_self) 0 rfl (Cert.structural_sound _ _ _ hs)
     (Cert.total_sound _ _ _ ht) hnt ctx0 h0 fuel
   rw [h] at this
   exact this
 
 /-- **`LRParser::parse`** with the default string lexer (any recognizers, any input, whitespace
-    skipping or Layout rule, partial parsing on/off) or an adversarial user lexer never panics. -/
-theorem C15_lr_no_panic (env : Env) (sym : Nat)
-    (hs : Cert.structural env.g env.t 0 0 sym = true) (ht : Cert.total env.g env.t 0 = true)
-    (hlay : ∀ ls, env.t.layoutState = some ls → ∃ augl lsym,
-      Cert.structural env.g env.t ls augl lsym = true ∧ Cert.total env.g env.t ls = true)
+    skipping or Layout rule, partial parsing on/off) or an adversarial user lexer never panics, given
+    the certificate `Cert.lr` (structural + total for the main automaton and, if the grammar has a
+    Layout rule, for the layout automaton). -/
+theorem C15_lr_no_panic (env : Env) (hcert : Cert.lr env.g env.t = true)
     (partialParse : Bool) (fuel : Nat) :
     ∀ site, (parse env partialParse fuel).2 ≠ .panic site := by
   intro site h
-  have := parse_no_panic env sym (Cert.structural_sound _ _ _ _ _ hs) (Cert.total_sound _ _ _ ht)
+  unfold Cert.lr at hcert
+  simp only [Bool.and_eq_true] at hcert
+  obtain ⟨⟨hs, ht⟩, hl⟩ := hcert
+  have hS := Cert.structural_sound _ _ _ hs
+  have := parse_no_panic env (autosOf env.g env.t) hS ⟨0, 0, env.g.startIdx⟩
+    (by unfold autosOf; exact List.mem_cons_self) rfl (Cert.total_sound _ _ _ ht)
     (by
       intro ls hls
-      obtain ⟨augl, lsym, h1, h2⟩ := hlay ls hls
-      exact ⟨augl, lsym, Cert.structural_sound _ _ _ _ _ h1, Cert.total_sound _ _ _ h2⟩)
+      rw [hls] at hl
+      simp only [Bool.and_eq_true, List.any_eq_true, beq_iff_eq] at hl
+      obtain ⟨⟨au, hau, hst⟩, htl⟩ := hl
+      exact ⟨⟨au, hau, hst⟩, Cert.total_sound _ _ _ htl⟩)
     partialParse fuel
   rw [h] at this
   exact this
 
-/-- non-vacuity: the certificates hold for a concrete table without Layout rule -/
-example : Cert.structural Example.env.g Example.env.t 0 0 4 = true ∧
-    Cert.total Example.env.g Example.env.t 0 = true ∧ Example.env.t.layoutState = none := by decide
+/-- non-vacuity: the certificate holds for a concrete table -/
+example : Cert.lr Example.env.g Example.env.t = true := by decide
 
 end Rustemo.Props.C15
